@@ -1,5 +1,5 @@
 From Coq Require Import ZArith NArith List Bool.
-From CL Require Import Base.Sx Base.Res Base.Str Regex.Rx Model.LineCol Model.Lint
+From CL Require Import Base.Sx Base.Res Base.Str Regex.Rx Model.LineCol Model.Lint Model.LintProps
                        Generated.C19Facts.
 Import ListNotations.
 Open Scope Z_scope.
@@ -15,7 +15,7 @@ Definition to_entity (contents : list N) (s : sx) : ent :=
   let sp := to_span (nth_sx 4 s) in
   let vs := to_option to_span (nth_sx 5 s) in
   let cls := to_Z (nth_sx 3 s) in
-  mkEntity (to_nat (nth_sx 0 s)) (to_Z (nth_sx 1 s)) (to_bool (nth_sx 2 s))
+  mkEntity (to_nat (nth_sx 0 s)) (to_Z (nth_sx 1 s)) (to_bool (nth_sx 2 s)) []
     (if cls =? 3 then android_position else entry_position contents sp)
     (if cls =? 3 then android_value_position
      else if cls =? 2 then fluent_value_position contents sp
@@ -53,8 +53,8 @@ Definition pair_eqb (a b : nat * nat) : bool :=
   Nat.eqb (fst a) (fst b) && Nat.eqb (snd a) (snd b).
 
 (* Entity.equals from the list of (id, id) pairs that are equal *)
-Definition equals_of (eqs : list (nat * nat)) (a b : ent) : bool :=
-  existsb (pair_eqb (e_id a, e_id b)) eqs.
+Definition equals_of (eqs : list (nat * nat)) (a b : ent) : result bool :=
+  Ok (existsb (pair_eqb (e_id a, e_id b)) eqs).
 
 (* checker.check(e, e) from the table id -> results *)
 Definition checker_of (res : list (nat * list (@cres Z))) : @checker Z Z :=
@@ -98,6 +98,17 @@ Definition get_checker_of (s : sx) (res : list (nat * list (@cres Z)))
   end.
 
 Definition no_plugins (_ : path) : bool := false.
+
+(* findings of the text-level .properties lint: keys are strings *)
+Definition of_message_s (m : @message str Z) : sx :=
+  match m with
+  | MDuplicate k => L [A 0; of_str k]
+  | MChanged k => L [A 1; of_str k]
+  | MJunk id p q => L [A 2; of_nat id; A (fst p); A (snd p); A (fst q); A (snd q)]
+  | MCheck c => L [A 3; A c]
+  end.
+Definition of_finding_s (f : @finding str Z) : sx :=
+  L [A (f_lineno f); A (f_column f); of_level (f_level f); of_message_s (f_message f)].
 
 Definition dispatch (f : Z) (x : sx) : sx :=
   match f with
@@ -143,6 +154,13 @@ Definition dispatch (f : Z) (x : sx) : sx :=
         (if k =? 0 then e_position e a
          else if k =? 1 then e_value_position e (VOff a)
          else e_value_position e (VTuple a b))
+  | 5 => (* lint_properties: [j0; text; ref_text?; checker?]  checker = results by start offset *)
+      let res := to_option to_results (nth_sx 3 x) in
+      of_result (of_list of_finding_s)
+        (lint_properties (to_nat (nth_sx 0 x))
+           (option_map (fun r => (fun (e : @entity str) (_ : @entity str) =>
+                                    match assoc Nat.eqb (e_id e) r with Some l => l | None => [] end)) res)
+           (to_str (nth_sx 1 x)) (to_option to_str (nth_sx 2 x)))
   | _ => sx_err
   end.
 
